@@ -179,19 +179,21 @@ def install_capture():
 
 def gen_problem(rng):
     streams = []
+    # film coefficients are usually of order 1 (kW/m2/K); one problem in six states them on a W/m2/K-like scale (hundreds to thousands)
+    hs = [0.5, 1.0, 2.0, 4.0] if rng.random() < 0.84 else [500.0, 2000.0, 4000.0, 10000.0]
     for i in range(rng.randint(2, 6)):
         a, b = rng.sample(range(20, 300, 10), 2)
         cp = rng.choice([1, 2, 3, 4]) / 2
         streams.append(dict(zone="Z", name=f"S{i}", t_supply=float(a), t_target=float(b), heat_flow=cp * abs(a - b),
-                            dt_cont=rng.choice([2.5, 5.0, 10.0]), htc=rng.choice([0.5, 1.0, 2.0, 4.0])))
+                            dt_cont=rng.choice([2.5, 5.0, 10.0]), htc=rng.choice(hs)))
     utils = []
     if rng.random() < 0.5:
         for j, t in enumerate(rng.sample(range(30, 420, 10), rng.randint(0, 3))):
             utils.append(dict(name=f"HU{j}", type="Hot", t_supply=float(t), t_target=float(t), heat_flow=0.0, dt_cont=rng.choice([2.5, 5.0]),
-                              htc=rng.choice([1.0, 2.0, 0.5]), price=10.0))
+                              htc=rng.choice([1.0, 2.0, 0.5] if hs[0] < 100 else [3000.0, 8000.0]), price=10.0))
         for j, t in enumerate(rng.sample(range(-20, 250, 10), rng.randint(0, 3))):
             utils.append(dict(name=f"CU{j}", type="Cold", t_supply=float(t), t_target=float(t), heat_flow=0.0, dt_cont=rng.choice([2.5, 5.0]),
-                              htc=rng.choice([1.0, 2.0, 0.5]), price=10.0))
+                              htc=rng.choice([1.0, 2.0, 0.5] if hs[0] < 100 else [3000.0, 8000.0]), price=10.0))
     return dict(streams=streams, utilities=utils, options={"DO_AREA_TARGETING": True})
 
 
